@@ -1,5 +1,6 @@
 import copy
 import importlib
+import json
 import logging
 import os
 import os.path
@@ -96,6 +97,14 @@ def redirect_exception(old_exc, new_exc):
         return inner_wrapper
 
     return wrapper
+
+
+def atomic_write_json(path, obj, **kwargs):
+    """Write `obj` as JSON to `path` such that `path` is never left half-written."""
+    tmp_path = f"{path}.tmp"
+    with open(tmp_path, "w") as tmp_file:
+        json.dump(obj, tmp_file, **kwargs)
+    os.replace(tmp_path, path)
 
 
 def ensure_trailing_newline(s):
